@@ -474,12 +474,14 @@ fn parser_driven(rng: &mut Rng, st: &mut Stats) {
 /// tail length 0..=4 x three ways of building the receiver, so every relation between the resulting length and the
 /// buffer's capacity occurs whatever the growth policy is; then 40 more bytes to force a reallocation, content compared
 /// after each step, allocator monitor consulted after each case.
-fn wtf8_join_sweep<A: Atomicity>(st: &mut Stats, audit: bool) -> Result<usize, String> {
+fn wtf8_join_sweep<A: Atomicity>(st: &mut Stats, audit: bool, small: bool) -> Result<usize, String> {
     let base = valloc::snapshot();
     let mut cases = 0usize;
-    for lhs_len in 9..=140usize {
-        for tail in 0..=4usize {
-            for how in 0..3 {
+    // under an interpreter (sanitizer tier) only the lengths around the first two capacities, one construction
+    let (max_len, max_tail, ways) = if small { (36usize, 2usize, 1) } else { (140, 4, 3) };
+    for lhs_len in 9..=max_len {
+        for tail in 0..=max_tail {
+            for how in 0..ways {
                 let mut l = vec![b'a'; lhs_len - 3];
                 l.extend(super::tendril_ops::enc_cp(0xD83D));
                 let mut r = super::tendril_ops::enc_cp(0xDE00);
@@ -535,7 +537,8 @@ fn wtf8_join_sweep<A: Atomicity>(st: &mut Stats, audit: bool) -> Result<usize, S
 
 fn one_history(family: usize, hseed: u64, nops: usize, st: &mut Stats, audit: bool) -> Result<usize, String> {
     if family == 8 {
-        return match catch(|| if hseed % 2 == 0 { wtf8_join_sweep::<NonAtomic>(st, audit) } else { wtf8_join_sweep::<Atomic>(st, audit) }) {
+        let small = nops <= 60;
+        return match catch(|| if hseed % 2 == 0 { wtf8_join_sweep::<NonAtomic>(st, audit, small) } else { wtf8_join_sweep::<Atomic>(st, audit, small) }) {
             Ok(r) => r,
             Err(m) => Err(format!("panic: {m}")),
         };
@@ -661,7 +664,7 @@ pub fn run(args: &Args) -> (Meta, Stats) {
         // one process in four runs it (it is 4000 small cases)
         let family = if k < 2 && (!sanit || seed % 4 == 0) { 8 } else { (k % 8) as usize };
         let hseed = if family == 8 { k } else { hseed };
-        let nops = if sanit { 60 } else { 50 + (hseed % 300) as usize };
+        let nops = if sanit { 60 } else if family == 8 { 1000 } else { 50 + (hseed % 300) as usize };
         k += 1;
         st.case(Some(hseed));
         match one_history(family, hseed, nops, &mut st, audit) {
